@@ -1,6 +1,7 @@
 package main
 
 import (
+	"strings"
 	"fmt"
 	"go/token"
 	"go/types"
@@ -110,13 +111,24 @@ func ruleCapacityAgree(c *Ctx) {
 			if fv != nil && namedIs(derefT(base.Type()), "DataFile") {
 				return "FILE." + fv.Name()
 			}
+			if fv != nil && namedIs(derefT(base.Type()), "MetaData") && strings.HasSuffix(fv.Name(), "Size") {
+				return "SIZE"
+			}
 			if p, ok := v.(*ssa.Parameter); ok && isIntegerType(p.Type()) {
 				return "OFF"
 			}
 			return pathOf(v)
 		}
-		for _, ifi := range ifsOf(f) {
-			a := decomposeIf(ifi)
+		// every ordering comparison, whether it feeds an If or is returned as a bool by a helper: which side of the
+		// comparison equality falls on does not depend on how the result is used
+		var cmps []*ssa.BinOp
+		instrs(f, func(in ssa.Instruction) {
+			if b, ok := in.(*ssa.BinOp); ok {
+				cmps = append(cmps, b)
+			}
+		})
+		for _, ifi := range cmps {
+			a := condAtom{Op: ifi.Op, X: ifi.X, Y: ifi.Y}
 			switch a.Op {
 			case token.LSS, token.LEQ, token.GTR, token.GEQ:
 			default:
@@ -292,7 +304,8 @@ func controllingIfs(fn *ssa.Function, b *ssa.BasicBlock) []*ssa.If {
 		if !found && ifi.Block() != b {
 			// control dependence proper: one side can still get to b, the other cannot (without coming back to the test)
 			ib := ifi.Block()
-			skip := func(x *ssa.BasicBlock, si int) bool { return x.Succs[si] == ib }
+			// an edge back to the test or to a block that dominates it starts another iteration of an enclosing loop
+			skip := func(x *ssa.BasicBlock, si int) bool { return x.Succs[si] == ib || x.Succs[si].Dominates(ib) }
 			r0, r1 := reachFrom(ib.Succs[0], skip)[b], reachFrom(ib.Succs[1], skip)[b]
 			found = r0 != r1 && fn.Blocks[0] != nil && reachFrom(fn.Blocks[0], nil)[ib]
 		}
@@ -356,6 +369,7 @@ func ruleApplyAll(c *Ctx) {
 					seen[ifi] = true
 					n++
 					var offender ssa.Value
+					clock := false
 					backSlice(ifi.Cond, func(v ssa.Value) {
 						if offender != nil {
 							return
@@ -372,11 +386,21 @@ func ruleApplyAll(c *Ctx) {
 							if cal := x.Call.StaticCallee(); cal != nil && !isIndexMutator(cal) && isIndexStructRecv(cal) && hasNonErrorResult(cal) {
 								offender = v
 							}
+							// the clock: an expired record still supersedes the older records of its key
+							if cal := x.Call.StaticCallee(); cal != nil && (cal.String() == "time.Now" || cal.Name() == "IsExpired" && c.P.inModule(cal)) {
+								offender = v
+								clock = true
+							}
 						}
 					})
 					c.touch(st.fn)
 					if offender != nil {
 						perFn[st.fn]++
+						if clock {
+							c.bad(fnName(st.fn), fmt.Sprintf("applier selection condition #%d depends only on the record itself", perFn[st.fn]), c.P.ipos(ifi),
+								"whether a record of a committed transaction is applied to the index depends on the clock ("+shortInstr(offender.(ssa.Instruction))+"): a record that has expired by the time the log is replayed is skipped, so it no longer supersedes the older records of its key - the overwritten value comes back after a reopen, and differently in the index mode that keeps values in memory")
+							continue
+						}
 						c.bad(fnName(st.fn), fmt.Sprintf("applier selection condition #%d depends only on the record itself", perFn[st.fn]), c.P.ipos(ifi),
 							"whether a record of a committed transaction is applied to the index depends on "+map[bool]string{true: "the state of the index itself", false: "a side table"}[isCallInstr(offender)]+" ("+shortInstr(offender.(ssa.Instruction))+") computed from other records: records are skipped, and every operation logged between a skipped record and the one that 'supersedes' it sees a different state than at the time it was accepted")
 					}
